@@ -33,6 +33,8 @@ def run(ctx):
     Q.rule_space(ctx, "R4")
     Q.rule_decode_set(ctx, "R4d", m, params, sets)
     Q.rule_c1(ctx, "R4c", sets)
+    U.rule_qsl(ctx, "R4q")
+    Q.rule_qsl_mappers(ctx, "R4m")
 
     # R5 order constraints ----------------------------------------------------------
     ctx.rule("R5", "order: the empty-path decision reads the dot-segment-resolved path; when '.' or '/' escapes are decodable in a path, unescaping precedes dot-segment resolution; the path is dot-resolved on every non-root path")
